@@ -101,6 +101,11 @@ func (api *API) mapEncodeBasedOnType(
 		}
 
 	case reflect.Struct:
+		// a uint256 number that is held as a big.Int value (see encodeBasedOnType)
+		if valueBigInt, ok := valueI.(big.Int); ok {
+			return api.mapEncodeBasedOnType(ctx, reflect.ValueOf(&valueBigInt), &valueBigInt, bigIntPtrType, ts, opts)
+		}
+
 		return api.mapEncodeStruct(ctx, value, valueI, valueType, ts, opts)
 	case reflect.Slice:
 		return api.mapEncodeSlice(ctx, value, valueType, ts, opts)
